@@ -28,7 +28,7 @@ package mast
 // b divides v, 0 for v = 0.
 
 //@ smt (declare-fun lay (Int Int) Int)
-//@ smt (assert (forall ((v Int) (b Int)) (! (= (lay v b) (ite (and (not (= v 0)) (= (mod v b) 0)) (+ 1 (lay (div v b) b)) 0)) :pattern ((lay v b)))))
+//@ smt (assert (forall ((v Int) (b Int)) (! (=> (>= b 2) (= (lay v b) (ite (and (not (= v 0)) (= (mod v b) 0)) (+ 1 (lay (div v b) b)) 0))) :pattern ((lay v b)))))
 
 // Arithmetic facts about Euclidean div/mod with a variable divisor (proved once as lemmas).
 //@ lemma modneg [C14] (forall ((v Int) (b Int)) (! (=> (not (= b 0)) (= (= (mod (- v) b) 0) (= (mod v b) 0))) :pattern ((mod (- v) b))))
@@ -47,3 +47,129 @@ package mast
 //@ requires bf [C14] (and (>= branchFactor 2) (< branchFactor 9223372036854775808))
 //@ ensures lay [C14] (= result (mod (lay v branchFactor) 256))
 //@ loop 1 invariant acc [C14] (= (mod (+ layer (lay v' branchFactor)) 256) (mod (lay v branchFactor) 256))
+
+// ---------------------------------------------------------------------------------------
+// Vocabulary: views of a node's three sequences, link kinds, key order.
+
+//@ smt (define-fun nkeys ((h Heap) (r Int)) Int (sl.len (Node.Key h r)))
+//@ smt (define-fun nvals ((h Heap) (r Int)) Int (sl.len (Node.Value h r)))
+//@ smt (define-fun nlinks ((h Heap) (r Int)) Int (sl.len (Node.Link h r)))
+//@ smt (define-fun elemAt ((h Heap) (s Slice) (i Int)) Any (Arr.Any.at h (sl.arr s) (+ (sl.off s) i)))
+//@ smt (define-fun KeyAt ((h Heap) (r Int) (i Int)) Any (elemAt h (Node.Key h r) i))
+//@ smt (define-fun ValAt ((h Heap) (r Int) (i Int)) Any (elemAt h (Node.Value h r) i))
+//@ smt (define-fun LinkAt ((h Heap) (r Int) (i Int)) Any (elemAt h (Node.Link h r) i))
+//@ smt (define-fun isNil ((a Any)) Bool (= a anil))
+//@ smt (define-fun isPtr ((a Any)) Bool (and (= (a.tid a) tid.PmastNode) (> (a.val a) 0)))
+//@ smt (define-fun isName ((a Any)) Bool (= (a.tid a) tid.string))
+//@ smt (define-fun ptrLink ((r Int)) Any (mkAny tid.PmastNode r))
+//@ smt (define-fun isErr ((e Any)) Bool (not (= e anil)))
+// The root of a tree is nil, a node pointer or a node name.
+//@ smt (define-fun LinkOK ((a Any)) Bool (or (isNil a) (isPtr a) (isName a)))
+//@ smt (define-fun RootOK ((h Heap) (m Int)) Bool (LinkOK (Mast.root h m)))
+// A node has the shape every traversal relies on: n keys, n values, n+1 links.
+//@ smt (define-fun Shape ((h Heap) (r Int)) Bool (and (> r 0) (= (nvals h r) (nkeys h r)) (= (nlinks h r) (+ (nkeys h r) 1))))
+// seqEq: two slices denote the same sequence (in possibly different heaps)
+//@ smt (define-fun seqEq ((h1 Heap) (s1 Slice) (h2 Heap) (s2 Slice)) Bool (and (= (sl.len s1) (sl.len s2)) (forall ((i Int)) (! (=> (and (<= 0 i) (< i (sl.len s1))) (= (elemAt h1 s1 i) (elemAt h2 s2 i))) :pattern ((elemAt h1 s1 i)) :pattern ((elemAt h2 s2 i))))))
+// SameSeqs: node r in h carries the same three sequences as node q in g
+//@ smt (define-fun SameSeqs ((h Heap) (r Int) (g Heap) (q Int)) Bool (and (seqEq h (Node.Key h r) g (Node.Key g q)) (seqEq h (Node.Value h r) g (Node.Value g q)) (seqEq h (Node.Link h r) g (Node.Link g q))))
+// FreshArrays: the three backing arrays of r were allocated after watermark w and are pairwise distinct
+//@ smt (define-fun FreshArrays ((h Heap) (r Int) (w Int)) Bool (and (> (sl.arr (Node.Key h r)) w) (> (sl.arr (Node.Value h r)) w) (> (sl.arr (Node.Link h r)) w) (distinct (sl.arr (Node.Key h r)) (sl.arr (Node.Value h r)) (sl.arr (Node.Link h r))) (= (sl.off (Node.Key h r)) 0) (= (sl.off (Node.Value h r)) 0) (= (sl.off (Node.Link h r)) 0)))
+
+// A1: the key order is a total preorder (0 means "same key", not identity).
+//@ smt (declare-fun ord (Any Any) Int)
+//@ smt (assert (forall ((a Any)) (! (= (ord a a) 0) :pattern ((ord a a)))))
+//@ smt (assert (forall ((a Any) (b Any)) (! (and (= (< (ord a b) 0) (> (ord b a) 0)) (= (= (ord a b) 0) (= (ord b a) 0))) :pattern ((ord a b)))))
+//@ smt (assert (forall ((a Any) (b Any) (c Any)) (! (=> (and (<= (ord a b) 0) (<= (ord b c) 0)) (and (<= (ord a c) 0) (=> (or (< (ord a b) 0) (< (ord b c) 0)) (< (ord a c) 0)))) :pattern ((ord a b) (ord b c)))))
+// `healthy`: no abstract callee (store, comparator, layer function, marshaler) fails in this activation.
+//@ smt (declare-fun healthy () Bool)
+//@ smt (declare-fun layerOf (Any Int) Int)
+
+//@ constfield Mast.debug false
+//@ assumption Mast.debug is false (debug printing is not modelled; the field is never set outside tests)
+//@ assumption A1: user callbacks keyOrder/keyLayer/marshal/unmarshal are pure, deterministic, do not write the modelled heap and do not re-enter the tree; keyOrder is a total preorder when it returns no error
+
+//@ abstract field:Mast.keyOrder (a b) -> (cmp err)
+//@ pure
+//@ ensures ord (=> (= err anil) (= cmp (ord a b)))
+//@ ensures healthy (=> healthy (= err anil))
+
+//@ abstract field:Mast.keyLayer (key bf) -> (layer err)
+//@ pure
+//@ ensures lay (=> (= err anil) (= layer (layerOf key bf)))
+//@ ensures healthy (=> healthy (= err anil))
+
+// ---------------------------------------------------------------------------------------
+// Small helpers
+
+//@ func uint8min
+//@ tags C01 C10
+//@ pure
+//@ ensures min (= result (ite (< x y) x y))
+
+//@ func (*mastNode).isEmpty
+//@ tags C01 C04 C09
+//@ pure
+//@ requires nonnil (> node 0)
+//@ ensures def (= result (and (= (nlinks H0 node) 1) (isNil (LinkAt H0 node 0))))
+
+//@ func (*mastNode).Dirty
+//@ tags C01 C02 C13
+//@ modifies mastNode.expected mastNode.source
+//@ requires nonnil (> node 0)
+//@ ensures def (and (= (mastNode.expected H node) 0) (= (mastNode.source H node) 0))
+//@ ensures frame (forall ((r Int)) (! (=> (not (= r node)) (and (= (mastNode.expected H r) (mastNode.expected H0 r)) (= (mastNode.source H r) (mastNode.source H0 r)))) :pattern ((mastNode.expected H r)) :pattern ((mastNode.source H r))))
+
+//@ func (*Mast).store
+//@ tags C01 C04 C09
+//@ modifies W
+//@ requires nonnil (> node 0)
+//@ ensures ok (=> (not (and (= (nlinks H0 node) 1) (isNil (LinkAt H0 node 0)))) (and (= err anil) (= result0 (ptrLink node))))
+//@ ensures empty (=> (and (= (nlinks H0 node) 1) (isNil (LinkAt H0 node 0))) (and (isErr err) (= result0 anil)))
+
+//@ func (*Mast).Size
+//@ tags C01
+//@ pure
+//@ requires nonnil (> m 0)
+//@ ensures def (= result (Mast.size H0 m))
+
+//@ func (*Mast).Height
+//@ tags C01
+//@ pure
+//@ requires nonnil (> m 0)
+//@ ensures def (= result (Mast.height H0 m))
+
+//@ func (*Mast).IsDirty
+//@ tags C01 C13
+//@ pure
+//@ requires nonnil (> m 0)
+//@ requires root (RootOK H m)
+//@ ensures def (= result (and (isPtr (Mast.root H0 m)) (mastNode.dirty H0 (a.val (Mast.root H0 m)))))
+
+//@ func emptyNode
+//@ tags C01 C02 C09
+//@ modifies W Arr.Any@fresh
+//@ requires bf (and (>= branchFactor 0) (< branchFactor 4611686018427387904))
+//@ ensures shape (and (= (sl.len (S_Node.Key (S_mastNode.Node result))) 0) (= (sl.len (S_Node.Value (S_mastNode.Node result))) 0) (= (sl.len (S_Node.Link (S_mastNode.Node result))) 1))
+//@ ensures caps (and (= (sl.cap (S_Node.Key (S_mastNode.Node result))) branchFactor) (= (sl.cap (S_Node.Value (S_mastNode.Node result))) branchFactor) (= (sl.cap (S_Node.Link (S_mastNode.Node result))) (+ branchFactor 1)))
+//@ ensures nil0 (isNil (elemAt H (S_Node.Link (S_mastNode.Node result)) 0))
+//@ ensures fresh (and (> (sl.arr (S_Node.Key (S_mastNode.Node result))) W0) (> (sl.arr (S_Node.Value (S_mastNode.Node result))) W0) (> (sl.arr (S_Node.Link (S_mastNode.Node result))) W0) (distinct (sl.arr (S_Node.Key (S_mastNode.Node result))) (sl.arr (S_Node.Value (S_mastNode.Node result))) (sl.arr (S_Node.Link (S_mastNode.Node result)))) (= (sl.off (S_Node.Link (S_mastNode.Node result))) 0) (= (sl.off (S_Node.Key (S_mastNode.Node result))) 0) (= (sl.off (S_Node.Value (S_mastNode.Node result))) 0))
+//@ ensures flags (and (not (S_mastNode.dirty result)) (not (S_mastNode.shared result)) (= (S_mastNode.expected result) 0) (= (S_mastNode.source result) 0))
+//@ ensures wm (<= (sl.arr (S_Node.Link (S_mastNode.Node result))) W)
+
+//@ func emptyNodePointer
+//@ tags C01 C02 C09
+//@ modifies W Arr.Any@fresh Node.*@fresh mastNode.*@fresh
+//@ requires bf (and (>= branchFactor 0) (< branchFactor 4611686018427387904))
+//@ ensures fresh (and (> result W0) (<= result W) (FreshArrays H result W0))
+//@ ensures shape (and (= (nkeys H result) 0) (= (nvals H result) 0) (= (nlinks H result) 1) (isNil (LinkAt H result 0)))
+//@ ensures caps (and (= (sl.cap (Node.Key H result)) branchFactor) (= (sl.cap (Node.Value H result)) branchFactor) (= (sl.cap (Node.Link H result)) (+ branchFactor 1)))
+//@ ensures flags (and (not (mastNode.dirty H result)) (not (mastNode.shared H result)) (= (mastNode.expected H result) 0) (= (mastNode.source H result) 0))
+
+//@ func (*mastNode).xcopy
+//@ tags C01 C02 C11
+//@ modifies W Arr.Any@fresh Node.*@fresh mastNode.*@fresh
+//@ requires nonnil (> node 0)
+//@ ensures fresh [C02] (and (> result W0) (<= result W) (FreshArrays H result W0))
+//@ ensures seqs [C02] (SameSeqs H result H0 node)
+//@ ensures caps (and (= (sl.cap (Node.Key H result)) (sl.cap (Node.Key H0 node))) (= (sl.cap (Node.Value H result)) (sl.cap (Node.Value H0 node))) (= (sl.cap (Node.Link H result)) (sl.cap (Node.Link H0 node))))
+//@ ensures flags [C02] (and (= (mastNode.dirty H result) (mastNode.dirty H0 node)) (= (mastNode.shared H result) (mastNode.shared H0 node)) (= (mastNode.expected H result) 0) (= (mastNode.source H result) 0))
